@@ -2,6 +2,7 @@ import Gomjml.Core.MapIter
 import Gomjml.Gen.MapRanges
 import Gomjml.Gen.Census
 import Gomjml.Gen.Misc
+import Gomjml.Core.SmallPure
 /-! # C05 — compilation is deterministic (property theorems only)
 
 Go's `range` over a map is modelled as a fold over an arbitrary permutation of the entries.  Every map range of the
@@ -64,5 +65,25 @@ theorem C05_random_id_callers :
     ∀ f ∈ Gomjml.Gen.Misc.randomIdCallers,
       f ∈ ["mjml/components.(*MJCarouselComponent).generateCarouselID", "mjml/components.(*MJNavbarComponent).generateCheckboxID"] := by
   decide
+
+/-- **the font imports of a document** (`fonts.ConvertFontFamiliesToURLs`, whose `seen` map is only ever asked for
+    membership): for every list of families in order of use and whatever the lookup of one family answers, every address is
+    imported once, every family with an address is served, and the addresses stand in the order of first use — a list fixed
+    by the document alone; the import block (`fontTags`) is a function of that list. -/
+theorem C05_font_imports (lookup : List Gomjml.Amp.B → List Gomjml.Amp.B) (fams : List (List Gomjml.Amp.B)) :
+    (Gomjml.SmallPure.convert lookup fams).Nodup ∧
+    (∀ u, u ∈ Gomjml.SmallPure.convert lookup fams ↔ u ≠ [] ∧ ∃ f ∈ fams, lookup f = u) ∧
+    (Gomjml.SmallPure.convert lookup fams).Sublist (fams.map lookup) :=
+  Gomjml.SmallPure.convert_spec lookup fams
+
+/-- non-vacuity: two families with the same address and one without -/
+example : Gomjml.SmallPure.convert (fun f => if f = [1] then [] else [7]) [[2], [1], [3]] = [[7]] := by decide
+
+/-- **`styles.NormalizeColor`** is idempotent and keeps the author's digits: `#abc` and `#aabbcc` name one colour however
+    often a value passes through it. -/
+theorem C05_normalize_color (v : List Gomjml.Amp.B) :
+    Gomjml.SmallPure.normalizeColor (Gomjml.SmallPure.normalizeColor v) = Gomjml.SmallPure.normalizeColor v ∧
+    ∀ x ∈ Gomjml.SmallPure.normalizeColor v, x ∈ v :=
+  ⟨Gomjml.SmallPure.normalizeColor_idem v, Gomjml.SmallPure.normalizeColor_digits v⟩
 
 end Gomjml.Props.C05
